@@ -5,7 +5,9 @@
 //     stops at the first input the core declines -- so what it has taken is a PREFIX of the tickets it walked: `taken`
 //     consecutive tickets starting with its own;
 //   * the distributing loop: the k-th output of the core's work() is stored into the k-th of those same tickets, in order,
-//     and that waiter is notified; at most `taken` tickets are touched.
+//     and that waiter is notified; at most `taken` tickets are touched;
+//   * leaving (the waiting loop, and the tail of do_work): every way out unlinks the caller's guard and then notifies the new
+//     head; the head clears doing_work before that notification.
 // Together with the core's contract (the k-th output belongs to the k-th batched input: unit log_cores for the log's two
 // cores) the ticket that was batched k-th is handed the k-th output, and no input is batched twice by one head.
 // NOT decided here (the queue's protocol over all threads): that no other thread batches or answers the same ticket, that
@@ -191,6 +193,108 @@ fn distribute(waiter: &WaitGuard, taken: usize, mut outputs: Outputs, Tracked(ma
 //@ >>
 //@ end
 
-//@ min-verified 2
+
+// ---------------------------------------------------------------- leaving the queue: every way out unlinks, then notifies
+// Necessary conditions for "no call blocks forever while other calls keep completing" that are local to do_work: whichever
+// way a caller leaves -- having found its output while waiting, or as the head after distributing -- it unlinks its own guard
+// and THEN notifies the new head of the wait list; the head clears `doing_work` before that notification, so the thread it
+// wakes can become the next head.  (That these wake-ups suffice is not decided.)
+// notified_idle: a notification went out at a moment when this caller was unlinked AND nobody was working -- only such a
+// notification lets the thread it wakes become the next head
+struct Exit { unlinked: bool, notified_after_unlink: bool, notified_idle: bool, doing_work: bool }
+#[verifier::external_body]
+struct QGuard { _p: u8 }
+impl QGuard {
+    #[verifier::external_body]
+    fn is_head(&mut self) -> (r: bool) { unimplemented!() }
+    // the value cell of this caller's own ticket
+    #[verifier::external_body]
+    fn load(&mut self) -> (r: WaitState<In, Out>) { unimplemented!() }
+    // ASSUMED for the head after distributing (unit above: the first ticket answered is the head's own, when the core
+    // produced at least one output): its own cell holds an output
+    #[verifier::external_body]
+    fn load_answered(&mut self) -> (r: WaitState<In, Out>) ensures r is Output { unimplemented!() }
+    // `state = waiter.naked_wait(state)`: the mutex is released and re-acquired; other threads may have flipped doing_work
+    #[verifier::external_body]
+    fn naked_wait(&self, Tracked(x): Tracked<&mut Exit>)
+        ensures final(x).unlinked == old(x).unlinked, final(x).notified_after_unlink == old(x).notified_after_unlink,
+    { unimplemented!() }
+}
+#[verifier::external_body]
+struct QList { _p: u8 }
+impl QList {
+    #[verifier::external_body]
+    fn unlink(&self, g: QGuard, Tracked(x): Tracked<&mut Exit>)
+        requires !old(x).unlinked,
+        ensures final(x).unlinked, !final(x).notified_after_unlink, !final(x).notified_idle, final(x).doing_work == old(x).doing_work,
+    { unimplemented!() }
+    #[verifier::external_body]
+    fn notify_head(&self, Tracked(x): Tracked<&mut Exit>)
+        ensures final(x).unlinked == old(x).unlinked, final(x).notified_after_unlink == old(x).unlinked, final(x).doing_work == old(x).doing_work,
+            final(x).notified_idle == (old(x).unlinked && !old(x).doing_work),
+    { unimplemented!() }
+}
+struct Queue { wait_list: QList }
+// `state.doing_work` read under the queue's state mutex
+#[verifier::external_body]
+fn doing_work(Tracked(x): Tracked<&mut Exit>) -> (r: bool) ensures r == old(x).doing_work, *final(x) == *old(x) { unimplemented!() }
+// `{ let mut state = self.state.lock().unwrap(); state.doing_work = false; }`
+#[verifier::external_body]
+fn clear_doing_work(Tracked(x): Tracked<&mut Exit>) ensures !final(x).doing_work, final(x).unlinked == old(x).unlinked, final(x).notified_after_unlink == old(x).notified_after_unlink, final(x).notified_idle == old(x).notified_idle { unimplemented!() }
+
+// the waiting loop: a caller that finds its output leaves properly; one that falls through is head and nobody is working
+//@ extract sync42/src/work_coalescing_queue.rs | impl WorkCoalescingQueue<I, O, C> :: fn do_work
+//@ region `while doing_work(Tracked(x))`
+//@ region-sig <<
+#[verifier::exec_allows_no_decreases_clause]
+fn wait_for_turn(q: &Queue, mut waiter: QGuard, Tracked(x): Tracked<&mut Exit>) -> (r: (Option<Out>, Option<QGuard>))
+//@ >>
+//@ region-tail <<
+    (None, Some(waiter))
+//@ >>
+//@ rewrite-re X18 `\bself\.` => `q.`
+//@ rewrite-re X23 `\bstate\.doing_work\b` => `doing_work(Tracked(x))`
+//@ rewrite-re X23 `state = waiter\.naked_wait\(state\);` => `waiter.naked_wait(Tracked(x));`
+//@ rewrite-re X24 `q\.wait_list\.unlink\(waiter\);` => `q.wait_list.unlink(waiter, Tracked(x));`
+//@ rewrite-re X24 `q\.wait_list\.notify_head\(\);` => `q.wait_list.notify_head(Tracked(x));`
+//@ rewrite-re X16 `return o;` => `return (Some(o), None);`
+//@ pre <<
+        !old(x).unlinked,
+//@ >>
+//@ post <<
+        // left with an output: unlinked, and the new head was notified after that
+        r.0 is Some ==> final(x).unlinked && final(x).notified_after_unlink,
+        // still queued: nothing unlinked, this caller is at the head and nobody is working
+        r.0 is None ==> !final(x).unlinked && !final(x).doing_work && r.1 is Some,
+//@ >>
+//@ loop 0 <<
+            invariant !x.unlinked,
+            ensures !x.unlinked, /* contract-inv */ !x.doing_work,
+//@ >>
+//@ end
+
+// the head's way out after distributing the outputs
+//@ extract sync42/src/work_coalescing_queue.rs | impl WorkCoalescingQueue<I, O, C> :: fn do_work
+//@ region `if let WaitState::Output(o) = waiter.load_answered() {` ..$
+//@ region-sig <<
+fn head_leaves(q: &Queue, mut waiter: QGuard, Tracked(x): Tracked<&mut Exit>) -> (r: Out)
+//@ >>
+//@ region-tail <<
+//@ >>
+//@ rewrite-re X18 `\bself\.` => `q.`
+//@ rewrite X7 `if let WaitState::Output(o) = waiter.load() {` => `if let WaitState::Output(o) = waiter.load_answered() {`
+//@ rewrite-re X23 `(?s)\{\s*let mut state = q\.state\.lock\(\)\.unwrap\(\);\s*state\.doing_work = false;\s*\}` => `clear_doing_work(Tracked(x));`
+//@ rewrite-re X24 `q\.wait_list\.unlink\(waiter\);` => `q.wait_list.unlink(waiter, Tracked(x));`
+//@ rewrite-re X24 `q\.wait_list\.notify_head\(\);` => `q.wait_list.notify_head(Tracked(x));`
+//@ pre <<
+        !old(x).unlinked, old(x).doing_work,
+//@ >>
+//@ post <<
+        // unlinked, no longer working, and the new head notified after both
+        final(x).unlinked && !final(x).doing_work && final(x).notified_after_unlink && final(x).notified_idle,
+//@ >>
+//@ end
+
+//@ min-verified 4
 } // verus!
 fn main() {}
